@@ -15,7 +15,12 @@ G: SyncGen.tla enumerates scenarios (upload history up to renaming, cuts into ha
 T: Trace_Sync.tla validates the recorded lower-layer events of every run against Sync's actions (silent steps
    for the memory-only actions, TLC searches), including the bounded-horizon observation that every acknowledged
    blob is at the destination byte for byte after healing; seeded random scenarios go through the same
-   validator; corrupted copies of real traces must be rejected (binding self-test)."""
+   validator; corrupted copies of real traces must be rejected (binding self-test).
+U: unbounded-LENGTH leg (unbounded_jobs, run inside leg S): SyncInd.tla, a typed copy of Sync.tla, with an inductive
+   invariant IndInv => DurablePending /\\ MemoryCoversQueue /\\ QueuedInSource discharged by Apalache (base, step,
+   implication, and the step condition of RowDeletedOnlyAfterDestAck as an action invariant) for 3 blobs and ANY
+   number of crashes; four must-fail runs (each deviation; IndInv without A5); TLC keeps the copy bound to Sync.tla
+   in both directions (SyncIndRef_A/_B) and checks IndInv on the bounded model."""
 import json
 import os
 import random
@@ -204,6 +209,39 @@ def negative_samples(ctx, evs):
     ctx.count("T", negative_samples_rejected=len(bad))
 
 
+# (init, inv, length, cinit, expected): proof obligations of the inductive argument on MC_SyncInd, then must-fail runs
+APALACHE = [("Init", "IndInv", 0, "ConstInit", "ok"),                 # base:  Init => IndInv
+            ("IndInit", "IndInv", 1, "ConstInit", "ok"),              # step:  IndInv /\ Next => IndInv'
+            ("IndInit", "Props", 0, "ConstInit", "ok"),               # IndInv => DurablePending /\ MemoryCoversQueue /\ QueuedInSource
+            ("IndInit", "RowDelStep", 1, "ConstInit", "ok"),          # IndInv /\ Next => step condition of RowDeletedOnlyAfterDestAck
+            ("IndInit", "IndInv", 1, "ConstInitDelRow", "violated"),      # sensitivity: DeleteRowBeforeWrite
+            ("IndInit", "IndInv", 1, "ConstInitNoReload", "violated"),    # sensitivity: NoQueueReload
+            ("IndInit", "IndInv", 1, "ConstInitEarlyEnq", "violated"),    # sensitivity: EnqueueBeforeSourceAccept
+            ("WeakInit", "WeakInv", 1, "ConstInit", "violated")]          # sensitivity: IndInv without A5 is not inductive
+
+
+def unbounded_jobs(ctx, quick):
+    """Unbounded-length safety (Apalache) + anti-drift of the typed copy SyncInd against Sync.tla (TLC, both directions).
+    Returns zero-argument jobs for leg S's thread pool; call before the threads start (derives cfg files)."""
+    drift = [("SyncIndRef_A.cfg", None), ("SyncIndRef_B.cfg", None)]
+    if not quick:
+        drift += [(c, {"Blobs": "{1, 2, 3}", "MaxCrashes": 1}) for c, _ in drift]
+    for c, ov in drift:
+        ctx._cfg(c, ov)
+
+    def apa(i, v, n, ci, exp):
+        ctx.apalache_ind("MC_SyncInd", i, v, n, cinit=ci, expect=exp)
+
+    def tlc(c, ov):
+        ctx.tlc_check("SyncIndRef", c, overrides=ov, workers=4, timeout=1500)
+    jobs = [(lambda a=a: apa(*a)) for a in APALACHE] + [(lambda d=d: tlc(*d)) for d in drift]
+    ctx.count("S", unbounded_length_obligations_proved=4, unbounded_length_must_fail=4)
+    ctx.assumptions.append("unbounded-length leg: the inductive invariant is discharged for a FIXED blob universe (3 blobs), Deviations = {}, "
+                           "ANY MaxCrashes and behaviours of ANY length; safety only (no fairness, no liveness); SyncInd is a typed copy "
+                           "of Sync.tla bound to it by TLC refinement checks in both directions on the bounded model")
+    return jobs
+
+
 def leg_s(ctx, quick):
     jobs = [("Sync", "Sync.cfg", None, None, 6),
             ("Sync", "Sync_safety.cfg", None, None, 6)]
@@ -230,8 +268,10 @@ def leg_s(ctx, quick):
         ctx.log("S Sync/Sync_live.cfg {%s}: Delivered violated as expected (%.1fs)" % (dev, r["wall"]))
     for dev in ("NoQueueReload", "DeleteRowBeforeWrite"):
         ctx._cfg("Sync_live.cfg", {"Deviations": '{"%s"}' % dev})
+    ujobs = unbounded_jobs(ctx, quick)
     with ThreadPoolExecutor(max_workers=7) as ex:
         fs = [ex.submit(one, j) for j in jobs] + [ex.submit(live, d) for d in ("NoQueueReload", "DeleteRowBeforeWrite")]
+        fs += [ex.submit(u) for u in ujobs]
         rs = [f.result() for f in fs]
     for r in rs:
         if r and r.get("zero_actions"):
